@@ -9,6 +9,7 @@ underflow of IEEE doubles are outside the theorems (the property's own escape cl
 import Mathlib.Analysis.SpecialFunctions.Log.Basic
 import Mathlib.Analysis.SpecialFunctions.Pow.Real
 import TsdateVerif.Proofs.DiscreteLogHom
+import TsdateVerif.Proofs.DiscreteGuardsDec
 
 namespace Tsdate.C12
 open Tsdate Tsdate.Discrete
@@ -237,6 +238,33 @@ theorem passLaws_real :
       exact Real.exp_log hr'
   · show LogReal.E (if (0 : ℝ) = 0 then bot else fin (Real.log 0)) = 0
     rw [if_pos rfl]; rfl
+
+/-! Non-vacuity of the guards of `pass_log_eq_lin`: on a three-leaf tree ((0,1)3,2)4 with a 2-point
+grid (tables and priors with zeros) the guards hold on the linear run, standardised and not
+(kernel-evaluated over `Rat`). -/
+
+def exampleLin : Input Rat where
+  G := 2
+  numNodes := 5
+  fixed := #[true, true, true, false, false]
+  edges := [⟨0, 3, 0⟩, ⟨1, 3, 1⟩, ⟨2, 4, 2⟩, ⟨3, 4, 3⟩]
+  frac := #[1, 1, 1, 1]
+  lik := #[#[1, 2], #[1, 3], #[2, 1], #[1, 2, 0]]
+  prior := #[#[], #[], #[], #[1, 1], #[0, 1]]
+  roots := [(4, 1)]
+
+example :
+    insideGuards (fun f : Rat => 0 < f) (linOps (fun _ v => v)) exampleLin true
+      (groupRuns (·.p) exampleLin.edges) (insideInit (linOps (fun _ v => v)) exampleLin) ∧
+    outsideGuards (fun f : Rat => 0 < f) (linOps (fun _ v => v)) exampleLin
+      (insidePass (linOps (fun _ v => v)) exampleLin true).1 true false
+      (groupRuns (·.c) [⟨3, 4, 3⟩, ⟨2, 4, 2⟩, ⟨0, 3, 0⟩, ⟨1, 3, 1⟩])
+      (outsideInit (linOps (fun _ v => v)) exampleLin 0) ∧
+    outsideGuards (fun f : Rat => 0 < f) (linOps (fun _ v => v)) exampleLin
+      (insidePass (linOps (fun _ v => v)) exampleLin true).1 false false
+      (groupRuns (·.c) [⟨3, 4, 3⟩, ⟨2, 4, 2⟩, ⟨0, 3, 0⟩, ⟨1, 3, 1⟩])
+      (outsideInit (linOps (fun _ v => v)) exampleLin 0) := by
+  decide +kernel
 
 /-! Non-vacuity: the streaming loop on a concrete list with `-∞` entries, a new maximum in the
 middle and a repeated value. -/
